@@ -214,7 +214,7 @@ def drive : List String → String
     | some n =>
       let parse (a : String) : Option BridgeAct :=
         if a == "start" || a == "enter" then some .start else if a == "stop" || a == "leave" then some .stop
-        else if a == "ostop" || a == "ostart" then some (.release 1000000)      -- another bridge object acts: nothing changes for this one
+        else if a == "ostop" || a == "ostart" then some .foreign      -- another bridge object acts: nothing changes for this one
         else match a.splitOn ":" with
           | ["send", i] => i.toNat?.map .send
           | ["occ", i] => i.toNat?.map .occupy
